@@ -54,7 +54,7 @@ def item_strategy(size_class):
     elif size_class == "mid":
         cnt = st.integers(20, 3000)
     else:
-        cnt = st.integers(5000, 25000)
+        cnt = st.integers(12000, 30000)
     run = st.builds(lambda n, seed, ml, al: ["r", n, seed, ml, al], cnt, st.integers(0, 999),
                     st.sampled_from([1, 2, 3, 8, 20, 30, 300, 700]), st.integers(1, 3))
     return st.one_of(lit, lit, pad, run, run)
@@ -67,7 +67,7 @@ def section_strategy(size_class):
         # sections get alignment 1; the others exercise the unmerged path with the same oracles.
         "al": st.sampled_from([0, 0, 0, 0, 0, 1, 3, 4]),
         "items": st.lists(item_strategy(size_class), min_size=0, max_size=8 if size_class != "large" else 3),
-        "unterminated": st.sampled_from([False] * 24 + [True]),
+        "unterminated": st.sampled_from([False] * 49 + [True]),
     })
 
 
@@ -95,7 +95,7 @@ def cfg_strategy():
     return st.fixed_dictionaries({
         "threads": st.sampled_from([1, 2, 3, 4, 8, 16]),
         "P": st.one_of(st.none(), st.integers(1, 24)),
-        "G": st.sampled_from([None, 1, 256, 256, 300, 512, 768, 1024, 4096, 65536]),
+        "G": st.sampled_from([None, 1, 256, 256, 256, 300, 512, 512, 768, 1024, 4096, 65536]),
         "gc": st.booleans(),
         "sched": st.one_of(st.none(), st.integers(1, 10000)),
     })
@@ -123,7 +123,8 @@ def case_strategy(tier):
             "refs": st.lists(ref_strategy(), min_size=1, max_size=12),
             "sweep": st.integers(0, 40),
             "cst_refs": st.lists(st.tuples(st.integers(0, 5), st.integers(0, 95), st.booleans()), max_size=3),
-            "cfg": cfg_strategy(),
+            # the large class runs one configuration at the default group size (140000 bytes)
+            "cfg": cfg_strategy().map(lambda c: dict(c, G=None)) if size_class == "large" else cfg_strategy(),
             "cfg2": cfg_strategy(),
         })
     return st.sampled_from(["small"] * 11 + ["mid"] * 4 + ["large"]).flatmap(build)
